@@ -260,8 +260,18 @@ def runOp (s : Sexp) : String :=
     | _, _, _, _ => "bad-op"
   -- C15: (jsonout (calls…) (calls…) …): one batch per Done()/Reset() cycle
   | .list (.atom "jsonout" :: batches) =>
-    match batches.mapM (fun b => match b with | .list cs => cs.mapM parseCall | _ => none) with
-    | some bs => String.intercalate " " ((JSONOut.jsonOutSession JSONOut.fresh bs).map hexOf)
+    -- a batch `(abandon calls…)` is a half-written document: the calls are made, then Reset() without Done()
+    let parseBatch : Sexp → Option (Bool × List JSONOut.Call) := fun b =>
+      match b with
+      | Sexp.list (Sexp.atom "abandon" :: cs) => (cs.mapM parseCall).map fun l => (true, l)
+      | Sexp.list cs => (cs.mapM parseCall).map fun l => (false, l)
+      | _ => none
+    match batches.mapM parseBatch with
+    | some bs =>
+      let (_, outs) := bs.foldl (fun (acc : JSONOut.Out × List String) b =>
+        let o' := JSONOut.run acc.1 b.2
+        if b.1 then (o'.reset, acc.2) else (o'.fin.reset, acc.2 ++ [hexOf o'.done])) (JSONOut.fresh, [])
+      String.intercalate " " outs
     | none => "bad-op"
   -- C19: (internseq xD1 xD2 …): results and sharing structure through one intern table
   | .list (.atom "internseq" :: .atom _kind :: ds) =>
